@@ -39,6 +39,8 @@ mod native_store {
     pub fn key_a(i: u8) -> KeyPath { let mut k = [0u8; 32]; k[0] = 0xA5; k[1] = i.wrapping_mul(8).wrapping_add(i / 32); k[2] = i; k }
     pub fn key_b(i: u8) -> KeyPath { let mut k = [0u8; 32]; k[0] = [0x00, 0x20, 0x40, 0x60, 0xE0, 0xFF][i as usize]; k[5] = i; k }
     pub fn key_c(i: u8) -> KeyPath { let mut k = [0x33u8; 32]; k[31] = i; k }
+    /// 40 keys sharing a 12-bit prefix: their sub-trie lives in a page of depth 2
+    pub fn key_d(i: u8) -> KeyPath { let mut k = [0u8; 32]; k[0] = 0xD6; k[1] = 0xA0 | (i & 0x0F); k[2] = (i >> 4) << 6 | 0x15; k[3] = i; k }
 }
 
 #[cfg(test)]
@@ -611,4 +613,79 @@ fn native_enum_crash_points_commit_atomic() {
     }
     eprintln!("crash points judged in total (including second crashes during recovery): {}", total_points);
     assert!(total_points >= 20);
+}
+
+// ---- WAL replay of real commits: recovery after the meta swap yields the committed state -----------
+/// Bounded native enumeration (not a proof): the ten-batch script of
+/// `native_enum_store_root_proofs_witness` where EVERY commit is made with
+/// `PanicOnSyncMode::PostMeta` - the commit dies right after the meta page is swapped, before the
+/// hash-table writeout, so the merkle pages of that commit exist only in the WAL - and the store is
+/// then reopened (WAL replay).  [C04/C16] After each replay the root is the specified trie's over the
+/// model INCLUDING that commit, every key reads back, every path proof verifies and confirms the
+/// view; i.e. what the page walker logged as page diffs is enough to rebuild every page it changed,
+/// also for pages stored for the first time and pages that cross the elision threshold.
+#[cfg(test)]
+#[test]
+fn native_enum_store_wal_replay_equals_commit() {
+    use crate::hasher::{Blake3Hasher, ValueHasher};
+    use crate::{KeyReadWrite, Nomt, Options, PanicOnSyncMode, SessionParams};
+    use bitvec::prelude::*;
+    use native_store::*;
+    use nomt_core::trie::{KeyPath, LeafData};
+    use std::collections::BTreeMap;
+    let mut script = native_store_script();
+    // a sub-trie under a depth-2 page that grows past the elision threshold in steps (the nodes of
+    // the earlier steps are not touched by the step that crosses it), is updated through, and shrinks
+    let val = |tag: u8, len: usize| Some(vec![tag; len]);
+    script.push((0..15).map(|i| (key_d(i), val(0xD0, 3))).collect());
+    script.push((15..27).map(|i| (key_d(i), val(0xD1, 3))).collect());
+    script.push(vec![(key_d(2), val(0xD2, 4)), (key_d(20), None)]);
+    script.push((27..40).map(|i| (key_d(i), val(0xD3, 2))).chain(Some((key_d(7), val(0xD4, 9)))).collect());
+    script.push((3..40).map(|i| (key_d(i), None)).collect());
+    let universe: Vec<KeyPath> = (0..26).map(key_a).chain((0..6).map(key_b)).chain((0..2).map(key_c)).chain((0..40).map(key_d)).chain(Some([0x5Au8; 32])).collect();
+    for rotation in 0..4usize {
+        let dir = tempfile::tempdir().unwrap();
+        let open = |crash: bool| {
+            let mut o = Options::new();
+            o.path(dir.path().join("db"));
+            o.commit_concurrency(1);
+            o.hashtable_buckets(64);
+            o.bitbox_seed([3; 16]);
+            if crash { o.panic_on_sync(PanicOnSyncMode::PostMeta); }
+            Nomt::<Blake3Hasher>::open(o).unwrap()
+        };
+        let mut model: BTreeMap<KeyPath, Vec<u8>> = BTreeMap::new();
+        for step in 0..script.len() {
+            // the first ten batches rotate as in the other enumeration; the depth-2 batches keep their order
+            let b = if step < 3 || step >= 10 { step } else { 3 + (step - 3 + rotation * 2) % 7 };
+            let what = format!("rotation {}, batch {} (step {})", rotation, b, step);
+            {
+                let nomt = open(true);
+                let s = nomt.begin_session(SessionParams::default());
+                let mut actuals: Vec<(KeyPath, KeyReadWrite)> = script[b].iter().map(|(k, v)| { s.warm_up(*k); (*k, KeyReadWrite::Write(v.clone())) }).collect();
+                actuals.sort_by_key(|(k, _)| *k);
+                let fin = s.finish(actuals).unwrap();
+                let r = std::panic::catch_unwind(std::panic::AssertUnwindSafe(|| fin.commit(&nomt)));
+                assert!(r.is_err(), "PanicOnSyncMode::PostMeta did not fire ({})", what);
+            }
+            for (k, v) in &script[b] {
+                match v { Some(v) => { model.insert(*k, v.clone()); } None => { model.remove(k); } }
+            }
+            // reopen: the WAL is replayed
+            let nomt = open(false);
+            let root = nomt.root().into_inner();
+            assert!(root == ref_root(&model), "after replaying the WAL of a commit that died after the meta swap the root is not the committed state's ({})", what);
+            let s = nomt.begin_session(SessionParams::default());
+            for k in &universe {
+                assert!(nomt.read(*k).unwrap().as_ref() == model.get(k), "a key reads another value after the replay ({})", what);
+                let proof = s.prove(*k).unwrap();
+                let v = proof.verify::<Blake3Hasher>(k.view_bits::<Msb0>(), root)
+                    .unwrap_or_else(|e| panic!("a path proof does not verify after the replay: {:?} ({})", e, what));
+                match model.get(k) {
+                    Some(val) => assert!(v.confirm_value(&LeafData { key_path: *k, value_hash: Blake3Hasher::hash_value(val) }).unwrap(), "a proof does not confirm the value after the replay ({})", what),
+                    None => assert!(v.confirm_nonexistence(k).unwrap(), "a proof does not confirm an absence after the replay ({})", what),
+                }
+            }
+        }
+    }
 }
